@@ -142,7 +142,10 @@ class RegistryServer(object):
             except Exception:
                 self.logger.exception('error executing function')
             else:
-                self._send(brine.dump(reply), addrinfo)
+                try:  # a reply that cannot be serialized or sent must not end the loop either
+                    self._send(brine.dump(reply), addrinfo)
+                except Exception:
+                    self.logger.exception('error sending the reply')
 
     def start(self):
         """Starts the registry server (blocks)"""
